@@ -96,7 +96,12 @@ impl Property for C06 {
         let out: Out = rt::block_on(seed, async move {
             let mut o = Out { viol: vec![], log: vec![], probes: BTreeMap::new(), faults: BTreeMap::new(), nontrivial: false, evals: 0 };
             let clock = SimClock::new(1_700_000_000_000);
-            let mut nodes: Vec<Node> = (0..n).map(|i| Node::new(i as u64 + 1, level, &clock)).collect();
+            // in a quarter of the runs the nodes gossip through their other backend: a GossipActor (a mailbox in front of the
+            // GossipState) instead of the shared lock
+            let actor_backend = seed % 4 == 0;
+            if actor_backend { *o.probes.entry("gossip_actor_backend").or_insert(0) += 1; }
+            let mk = |i: u64| if actor_backend { Node::with_gossip_actor(i, level, &clock) } else { Node::new(i, level, &clock) };
+            let mut nodes: Vec<Node> = (0..n).map(|i| mk(i as u64 + 1)).collect();
             let mut net = SimNet::default();
             let mut all_deltas: Vec<ReplicationDelta> = Vec::new();
             let mut writers: BTreeMap<String, BTreeSet<usize>> = BTreeMap::new();
@@ -106,7 +111,7 @@ impl Property for C06 {
                     // client command at `node`
                     let r = nodes[*node].exec(c).await;
                     if trace { o.log.push(format!("node{}: {} -> {}", node + 1, show_cmd(c), r.show())); }
-                    let msgs = nodes[*node].pump();
+                    let msgs = nodes[*node].pump().await;
                     let name = String::from_utf8_lossy(&c[0]).to_uppercase();
                     let emitted: Vec<ReplicationDelta> = msgs.iter().flat_map(|m| deltas_of(m)).collect();
                     // a delta for a write that did not happen
@@ -166,7 +171,7 @@ impl Property for C06 {
                     // the node restarts from a checkpoint of its own replication state (nothing is lost: the
                     // checkpoint is taken at this instant); messages in flight keep arriving afterwards
                     let snap: std::collections::HashMap<String, ReplicatedValue> = nodes[*node].state.snapshot_state().await.into_iter().collect();
-                    let fresh = Node::new(*node as u64 + 1, level, &clock);
+                    let fresh = mk(*node as u64 + 1);
                     // every other restart rebuilds the node from a replayed log instead (WAL / segment replay: the same
                     // state arrives as a sequence of the node's own persisted deltas, through the remote-delta path)
                     let from_log = c.len() % 2 == 0;
